@@ -359,6 +359,10 @@ def environ_for(kind, name):
         data = ('payload-' + name).encode() * 3
         env.update(PATH_INFO='/body/' + name, REQUEST_METHOD='POST', CONTENT_LENGTH=str(len(data)))
         env['wsgi.input'] = io.BytesIO(data)
+    elif kind == 'bigbody':
+        data = ('payload-' + name + '|').encode() * 40          # larger than a small max_memfile_size: spooled to a temporary file
+        env.update(PATH_INFO='/body/' + name, REQUEST_METHOD='POST', CONTENT_LENGTH=str(len(data)))
+        env['wsgi.input'] = io.BytesIO(data)
     elif kind == 'form':
         data = ('a=' + name + '&b=2&a=3').encode()
         env.update(PATH_INFO='/form/' + name, REQUEST_METHOD='POST', CONTENT_LENGTH=str(len(data)),
@@ -462,6 +466,29 @@ def solo_fresh_interpreter(kind, name):
         if line.startswith('REF'):
             return json.loads(line[3:])
     raise core.MachineryError('reference interpreter failed: %s' % (p.stdout + p.stderr)[-600:])
+
+
+def reference_table(kinds, names, config=None):
+    """{(kind, name): response of a fresh application}, each KIND computed in an interpreter of its own in which no other
+    kind of request has ever been served: process-wide state that one kind of request leaves behind (module-level tables,
+    caches keyed by the first use) cannot colour the reference of another kind."""
+    import subprocess
+
+    def one(kind):
+        code = ('import sys, json; sys.path.insert(0, %r); from harness import core; core.setup_repo_path(); '
+                'from harness.checks import lifelib as L; '
+                'print("REF" + json.dumps([[n, L.solo(%r, n, %r)] for n in %r]))' % (core.VERIF, kind, config, list(names)))
+        env = dict(__import__('os').environ, VERIF_REPO=core.REPO, PYTHONHASHSEED='0')
+        p = subprocess.run([sys.executable, '-c', code], capture_output=True, text=True, env=env, timeout=300)
+        for line in p.stdout.splitlines():
+            if line.startswith('REF'):
+                return kind, json.loads(line[3:])
+        raise core.MachineryError('reference interpreter for kind %s failed: %s' % (kind, (p.stdout + p.stderr)[-600:]))
+    table = {}
+    for kind, rows in core.parallel([(lambda k=k: one(k)) for k in kinds], max_workers=8):
+        for n, resp in rows:
+            table[(kind, n)] = resp
+    return table
 
 
 def run_threads(app_of_thread, reqs, schedule, acc=None, line_files=None, record=True):
